@@ -6,6 +6,7 @@ import json
 import os
 import random
 import re
+import shutil
 import subprocess
 import sys
 import time
@@ -239,10 +240,10 @@ def _parse_nat_list(out):
 def coq_check_cases(tag, imports, check_fn, terms, shard=400, extra_defs=''):
     """Evaluate `check_fn term` (a bool) for every term inside Coq with vm_compute.
     Returns (list of failing indices, error text or None)."""
-    d = os.path.join(BUILD, 'cases', tag)
+    # one directory per run, so that two checks of one property never share files
+    d = os.path.join(BUILD, 'cases', '%s.%d' % (tag, os.getpid()))
+    shutil.rmtree(d, ignore_errors=True)
     os.makedirs(d, exist_ok=True)
-    for old in glob.glob(os.path.join(d, '*')):
-        os.remove(old)
     files = []
     for s in range(0, len(terms), shard):
         name = 'cases_%04d' % (s // shard)
@@ -279,12 +280,14 @@ def coq_check_cases(tag, imports, check_fn, terms, shard=400, extra_defs=''):
             errors.append('%s: rc=%s %s' % (name, p.returncode, out[-1200:]))
         else:
             bad.extend(got)
+    if not errors and not os.environ.get('VERIF_KEEP_CASES'):
+        shutil.rmtree(d, ignore_errors=True)
     return sorted(bad), ('\n'.join(errors) if errors else None)
 
 
 def coq_eval(tag, imports, expr, extra_defs=''):
     """Evaluate one expression in Coq and return the printed text (for replay files)."""
-    d = os.path.join(BUILD, 'cases', tag)
+    d = os.path.join(BUILD, 'cases', '%s.eval.%d' % (tag, os.getpid()))
     os.makedirs(d, exist_ok=True)
     path = os.path.join(d, 'one.v')
     with open(path, 'w') as f:
@@ -292,6 +295,7 @@ def coq_eval(tag, imports, expr, extra_defs=''):
         f.write(imports + '\nImport ListNotations.\nOpen Scope list_scope.\n' + extra_defs + '\n')
         f.write('Eval vm_compute in (%s).\n' % expr)
     rc, out = sh('timeout 600 coqc -R %s Viv -Q . Cases one.v' % COQ, cwd=d, timeout=700)
+    shutil.rmtree(d, ignore_errors=True)
     return re.sub(r'\s+', ' ', out).strip()
 
 
@@ -305,7 +309,7 @@ def load_known():
 
 
 def write_replay(prop, name, payload):
-    d = os.path.join(VERIF, 'replays', prop)
+    d = os.path.join(os.environ.get('VERIF_REPLAY_DIR') or os.path.join(VERIF, 'replays'), prop)
     os.makedirs(d, exist_ok=True)
     path = os.path.join(d, name + '.json')
     with open(path, 'w') as f:
@@ -314,13 +318,14 @@ def write_replay(prop, name, payload):
 
 
 def write_evidence(prop, tier, seed, coverage, assumptions, wall, violations):
-    os.makedirs(os.path.join(VERIF, 'evidence'), exist_ok=True)
+    evdir = os.environ.get('VERIF_EVIDENCE_DIR') or os.path.join(VERIF, 'evidence')
+    os.makedirs(evdir, exist_ok=True)
     ev = {
         'property_id': prop, 'tier': tier, 'seed': seed, 'level': 'proof',
         'coverage': coverage, 'assumptions': assumptions,
         'wall_s': round(wall, 2), 'violations': violations,
     }
-    with open(os.path.join(VERIF, 'evidence', prop + '.json'), 'w') as f:
+    with open(os.path.join(evdir, prop + '.json'), 'w') as f:
         json.dump(ev, f, indent=1, default=repr)
 
 
@@ -394,3 +399,27 @@ def generic_run(mod, cases, seed=0, shard=400):
     return {'observations': obs, 'oracle': orc, 'corr_bad': bad, 'corr_error': err,
             'stats': stats, 'nontrivial': nontriv, 'terms': terms,
             'samples': [{'case': cases[i], 'impl': obs[i]} for i in range(min(3, len(cases)))]}
+
+
+def merge_streams(cases, parts):
+    """Several streams of one check, each with its own correspondence layer.
+    parts: [(predicate on a case, function(list of cases) -> result dict of generic_run)]"""
+    obs = [None] * len(cases)
+    out = {'observations': obs, 'oracle': [], 'corr_bad': [], 'corr_error': None, 'stats': {}, 'nontrivial': 0,
+           'samples': []}
+    for pred, runner in parts:
+        idx = [i for i, c in enumerate(cases) if pred(c)]
+        if not idx:
+            continue
+        r = runner([cases[i] for i in idx])
+        for j, i in enumerate(idx):
+            obs[i] = r['observations'][j]
+        out['oracle'] += [(idx[j], m, sg) for j, m, sg in r['oracle']]
+        out['corr_bad'] += [idx[j] for j in r['corr_bad']]
+        for k, v in r['stats'].items():
+            out['stats'][k] = out['stats'].get(k, 0) + v if isinstance(v, int) else v
+        out['nontrivial'] += r['nontrivial']
+        out['samples'] += r['samples'][:2]
+        if r['corr_error']:
+            out['corr_error'] = (out['corr_error'] or '') + r['corr_error']
+    return out
